@@ -114,6 +114,13 @@ func (w *World) checkRetained() {
 			if isBlob {
 				r := w.do(reqSpec{method: "GET", path: "/v2/" + repo + "/blobs/" + d, repos: []string{repo}})
 				if r.Code != 200 || string(r.Body) != string(b.data) {
+					if w.m.mustKeep(mr, w.now())[d] == 0 {
+						// time went on while the requests of this check were served (slow or stalled handlers): by the time of the
+						// answer the grace period was over
+						b.maybeGone = true
+						w.x.out.probe("aged-out-during-check")
+						continue
+					}
 					w.x.viol([]string{"C05"}, "gc.removed-retained", w.keepReason(mr, d, now), fmt.Sprintf("after a collection, blob %s in %s (%s) answers %d; policy untagged=%v dangling=%v withsubj=%v grace=%s", d, repo, w.keepReason(mr, d, now), r.Code, w.k.untagged(), w.k.refDangling(), w.k.refWithSubj(), w.k.grace()))
 					if mr.causeOf(d) != "" {
 						mr.resyncOrphans()
@@ -126,6 +133,11 @@ func (w *World) checkRetained() {
 			}
 			if isMan && keep[d] == keepMan {
 				r := w.do(reqSpec{method: "GET", path: "/v2/" + repo + "/manifests/" + d, hdr: map[string][]string{"Accept": sortedKeys(x.mts)}, repos: []string{repo}})
+				if r.Code != 200 && w.m.mustKeep(mr, w.now())[d] != keepMan {
+					x.maybeGone = true
+					w.x.out.probe("aged-out-during-check")
+					continue
+				}
 				if r.Code != 200 {
 					w.x.viol([]string{"C05"}, "gc.removed-retained", w.keepReason(mr, d, now), fmt.Sprintf("after a collection, manifest %s in %s (%s) answers %d %v; policy untagged=%v dangling=%v withsubj=%v grace=%s", d, repo, w.keepReason(mr, d, now), r.Code, w.errCodes(r), w.k.untagged(), w.k.refDangling(), w.k.refWithSubj(), w.k.grace()))
 					if mr.causeOf(d) != "" {
@@ -712,7 +724,14 @@ func planC05(prop string, seed uint64, tier string, idx int) *Plan {
 		g.add(Op{K: "sleep", Ms: g.sleepMs()})
 	}
 	g.add(Op{K: "retained"})
-	return g.finish(prop, "retained-checked")
+	p := g.finish(prop, "retained-checked")
+	if natural && idx%6 == 4 {
+		// stalled handlers and collection passes (fault): a goroutine stops for seconds at some scheduling point, holding
+		// whatever it holds, while the ticker goes on
+		p.Strat.StallPer, p.Strat.StallMs, p.Strat.StallMax = g.r.pick(5, 15, 40), g.r.pick(700, 2500, 10000, 70000), g.r.pick(1, 2, 4)
+		p.Profile += " + stalled goroutines"
+	}
+	return p
 }
 
 // preseedGCMix adds unhealthy repositories to the store: corrupt index.json, index.json as a directory, removed directory.
